@@ -1,16 +1,16 @@
 // vh-c10: correspondence + oracle for C10 (honest peers negotiate by the policy
 // table and agree on the result).
 //
-//  (a) exhaustive correspondence of negotiateSecurity (hook) over level strings
-//      (the four names plus the YES/NO/garbage strings the client feeds it) x
-//      method/cipher list shapes; bitmask conversions over all single bits and a
-//      sweep of multi-bit values;
-//  (b) the real ClientHandshake against the real ServerHandshake over an
-//      in-memory tapped connection for every cell of the 4^4 matrix x list
-//      shapes x cipher shapes x command present/auth-only, followed by a
-//      message each way.  Every run is judged by an independently written
-//      decision table (the oracle, from the property text) and recorded as a
-//      Coq case evaluated against Model/Negotiate.v.
+//	(a) exhaustive correspondence of negotiateSecurity (hook) over level strings
+//	    (the four names plus the YES/NO/garbage strings the client feeds it) x
+//	    method/cipher list shapes; bitmask conversions over all single bits and a
+//	    sweep of multi-bit values;
+//	(b) the real ClientHandshake against the real ServerHandshake over an
+//	    in-memory tapped connection for every cell of the 4^4 matrix x list
+//	    shapes x cipher shapes x command present/auth-only, followed by a
+//	    message each way.  Every run is judged by an independently written
+//	    decision table (the oracle, from the property text) and recorded as a
+//	    Coq case evaluated against Model/Negotiate.v.
 package main
 
 import (
@@ -18,6 +18,7 @@ import (
 	"context"
 	"encoding/json"
 	"fmt"
+	"os"
 	"runtime"
 	"sort"
 	"strings"
@@ -96,7 +97,6 @@ func ciphOpt(s string) string {
 	}
 	return "(Some " + ciphTerm(s) + ")"
 }
-
 
 // batcher groups runs into one Coq case (a list of case1 terms): Coq's start-up
 // cost per case file dominates, so fewer, larger files are much faster.
@@ -293,20 +293,20 @@ type hsSpec struct {
 }
 
 type hsObs struct {
-	CErr, SErr, Denied           bool
-	CHang, SHang                 bool
-	CAuth, SAuth, CEnc, SEnc     bool
-	CMeth, SMeth                 string
-	CReal, SReal                 bool // Stream.IsEncrypted
-	SidEq, KeyEq                 bool
-	KeyLen                       int
-	Rounds                       [][2]int64
-	RanOK                        string // method whose exchange completed on the wire ("" none)
-	MsgOK                        bool
-	Leak                         bool // a marker was visible in clear on the wire
-	CmdsOK                       bool // the client's ValidCommands names the command it asked for
-	WireErr                      string
-	CErrText, SErrText           string
+	CErr, SErr, Denied       bool
+	CHang, SHang             bool
+	CAuth, SAuth, CEnc, SEnc bool
+	CMeth, SMeth             string
+	CReal, SReal             bool // Stream.IsEncrypted
+	SidEq, KeyEq             bool
+	KeyLen                   int
+	Rounds                   [][2]int64
+	RanOK                    string // method whose exchange completed on the wire ("" none)
+	MsgOK                    bool
+	Leak                     bool // a marker was visible in clear on the wire
+	CmdsOK                   bool // the client's ValidCommands names the command it asked for
+	WireErr                  string
+	CErrText, SErrText       string
 }
 
 var markerC = []byte("C10-MARKER-client-to-server-0123456789")
@@ -395,6 +395,18 @@ func walkWire(tap *peer.Tap, o *hsObs) {
 				o.RanOK = "CLAIMTOBE"
 				return
 			}
+		case 4: // FS: server names a directory, client reports its mkdir, server reports its verification
+			if si+1 >= len(sm) || ci >= len(cm) {
+				return
+			}
+			cres, _ := peer.ReadInt64(cm[ci])
+			ci++
+			sres, ok := peer.ReadInt64(sm[si+1])
+			si += 2
+			if ok && cres == 0 && sres == 0 {
+				o.RanOK = "FS"
+				return
+			}
 		case 0:
 			return
 		default: // PASSWORD and the like: nothing on the wire
@@ -407,8 +419,20 @@ func runHonest(sp hsSpec) hsObs {
 	var cr, sr peer.Result
 	var wg sync.WaitGroup
 	wg.Add(2)
-	go func() { defer wg.Done(); sr = peer.RunServer(sa, sp.S.Config()); if sr.Err != nil { sa.Close() } }()
-	go func() { defer wg.Done(); cr = peer.RunClient(ca, sp.C.Config()); if cr.Err != nil { ca.Close() } }()
+	go func() {
+		defer wg.Done()
+		sr = peer.RunServer(sa, sp.S.Config())
+		if sr.Err != nil {
+			sa.Close()
+		}
+	}()
+	go func() {
+		defer wg.Done()
+		cr = peer.RunClient(ca, sp.C.Config())
+		if cr.Err != nil {
+			ca.Close()
+		}
+	}()
 	wg.Wait()
 	o := hsObs{CErr: cr.Err != nil, SErr: sr.Err != nil, CHang: cr.Hang, SHang: sr.Hang}
 	if cr.Err != nil {
@@ -623,6 +647,7 @@ func genHonest(c *core.Ctx) error {
 		{"server-empty", []string{"CLAIMTOBE"}, nil},
 		{"only-unimplemented-common", []string{"PASSWORD"}, []string{"PASSWORD"}},
 		{"none-and-unknown", []string{"NONE", "BOGUS", "CLAIMTOBE"}, []string{"BOGUS", "NONE", "CLAIMTOBE"}},
+		{"two-implemented-orders", []string{"CLAIMTOBE", "FS"}, []string{"FS", "CLAIMTOBE"}},
 	}
 	cshapes := []mshape{
 		{"common", []string{"AES"}, []string{"AES"}},
@@ -674,6 +699,13 @@ func genHonest(c *core.Ctx) error {
 		}
 	}
 	obs := make([]hsObs, len(specs))
+	// cedar's FS server prints a warning for every directory the client already
+	// removed; keep that noise out of the check's log
+	if devnull, err := os.OpenFile(os.DevNull, os.O_WRONLY, 0); err == nil {
+		saved := os.Stdout
+		os.Stdout = devnull
+		defer func() { os.Stdout = saved; devnull.Close() }()
+	}
 	var wg sync.WaitGroup
 	sem := make(chan struct{}, runtime.NumCPU())
 	for i := range specs {
@@ -738,7 +770,7 @@ func gen(c *core.Ctx) error {
 	bt.flush()
 	c.Rule("every run of real client x real server must obey the decision table written from the property text (fail iff REQUIRED meets NEVER or a REQUIRED feature has no mutual usable method, then explicit denial; else success, authentication runs iff required or preferred-not-forbidden-with-mutual-method, encryption on when required, both ends agree on auth/enc/method/sid/key, a message each way works); every negotiateSecurity/bitmask result and every handshake outcome must equal Model/Negotiate.v")
 	c.Exhaustive(!c.Quick())
-	c.Assume("authentication sub-protocols exercised: CLAIMTOBE (succeeds), PASSWORD (unimplemented, fails); token pre-filter not exercised")
+	c.Assume("authentication sub-protocols exercised: CLAIMTOBE and FS (succeed), PASSWORD (unimplemented, fails); token pre-filter not exercised")
 	return nil
 }
 
